@@ -838,6 +838,15 @@ func handleRestore(execCtx *rapidContext, restore *interop.Restore) (interop.Res
 	// If runtime has not called /restore/next then just return
 	// instead of releasing the Runtime since there is no need to release.
 	// Then the runtime should be released only during Invoke
+	if runtime == nil {
+		// no runtime is registered (the request overtook the initialisation, or a reset cleared it):
+		// it cannot have called /restore/next either
+		restoreStatus = telemetry.RuntimeDoneSuccess
+		log.Info("Runtime is not registered just returning")
+
+		return restoreResult, nil
+	}
+
 	if runtime.GetState() != runtime.RuntimeRestoreReadyState {
 		restoreStatus = telemetry.RuntimeDoneSuccess
 		log.Infof("Runtime is in state: %s just returning", runtime.GetState().Name())
